@@ -2,6 +2,7 @@ package c09
 
 import (
 	"fmt"
+	"os"
 
 	"pgregory.net/rapid"
 )
@@ -17,13 +18,38 @@ type Op struct {
 
 // Case is the whole generated input: how the table is created and the history applied to it.
 type Case struct {
-	Via       string     `json:"via"` // create | add
+	Via       string     `json:"via"` // create | add | open (the table is read from a .docx built from Open)
 	Rows      int        `json:"rows"`
 	Cols      int        `json:"cols"`
 	Width     int        `json:"width"`
 	ColWidths []int      `json:"col_widths,omitempty"`
 	Data      [][]string `json:"data,omitempty"`
+	Open      *OpenSpec  `json:"open,omitempty"`
 	Ops       []Op       `json:"ops"`
+}
+
+// OpenSpec describes a w:tbl of a .docx written by another producer: the table under test is what
+// document.OpenFromMemory makes of it. This is the only way to a table whose rows have different numbers of
+// cells ("ragged rows" of the statement's quantifier), and to merged cells / nested tables that pre-exist.
+type OpenSpec struct {
+	Grid []int        `json:"grid"` // one w:gridCol per entry (its width)
+	Rows [][]OpenCell `json:"rows"` // the w:tc of every w:tr; the spans of a row sum to <= len(Grid)
+}
+
+// OpenCell is one w:tc.
+type OpenCell struct {
+	T      []string `json:"t"`                // one w:p per entry ("" = a paragraph without a run)
+	Span   int      `json:"span,omitempty"`   // w:gridSpan (0 = absent)
+	VM     string   `json:"vm,omitempty"`     // restart | continue | empty (<w:vMerge/>, which means continue)
+	NoPr   bool     `json:"nopr,omitempty"`   // the cell has no w:tcPr (only without span / vMerge)
+	Nested int      `json:"nested,omitempty"` // > 0: a nested 1-row table of that many cells precedes the paragraphs
+}
+
+func (c OpenCell) span() int {
+	if c.Span < 1 {
+		return 1
+	}
+	return c.Span
 }
 
 var structKinds = []string{"insrow", "insrow", "approw", "delrow", "delrow", "delrows", "inscol", "inscol", "appcol", "delcol", "delcol", "delcols"}
@@ -171,6 +197,106 @@ func (g *caseGen) op(k string) Op {
 	return o
 }
 
+// openText draws a cell text that survives the trip through an XML part unchanged (no line breaks, no
+// leading / trailing blanks: what the reader does with those is C03's subject, not this check's).
+func (g *caseGen) openText() string {
+	if g.u("otk", 10) < 7 {
+		g.k++
+		return fmt.Sprintf("v%d", g.k)
+	}
+	return pickOf(g, "oodd", []string{"", "", "中文", "a<b&c>d", "dup", "dup", "{{x}}"})
+}
+
+// openSpec draws a table as another producer writes it: 1-5 grid columns, 1-5 rows; ragged (some rows with
+// fewer cells than the grid, no row wider than the grid, at least one row as wide as the grid) or full;
+// with or without horizontally merged cells (w:gridSpan); sometimes one vertical merge that is valid in
+// grid terms (continuations written as val="continue" or as the bare <w:vMerge/>), a nested table, cells
+// without w:tcPr, cells of two paragraphs, paragraphs without runs.
+func (g *caseGen) openSpec() *OpenSpec {
+	G, R := 1+g.u("og", 5), 1+g.u("or", 5)
+	mode := g.u("om", 10)
+	ragged, spans := mode < 8, mode >= 6 && mode <= 8
+	if ragged {
+		if G < 2 {
+			G = 2 + g.u("og2", 3)
+		}
+		if R < 2 {
+			R = 2 + g.u("or2", 3)
+		}
+	}
+	o := &OpenSpec{}
+	for i := 0; i < G; i++ {
+		o.Grid = append(o.Grid, g.width())
+	}
+	widths := make([]int, R)
+	for i := range widths {
+		widths[i] = G
+		if ragged {
+			widths[i] = 1 + g.u("ow", G)
+		}
+	}
+	if ragged {
+		full := g.u("of", R)
+		short := (full + 1 + g.u("os", R-1)) % R
+		widths[full] = G
+		if widths[short] == G {
+			widths[short] = 1 + g.u("osw", G-1)
+		}
+	}
+	for i := 0; i < R; i++ {
+		var row []OpenCell
+		for rem := widths[i]; rem > 0; {
+			c := OpenCell{T: []string{g.openText()}}
+			switch g.u("op", 10) {
+			case 0:
+				c.T = append(c.T, g.openText())
+			case 1:
+				c.T = []string{""}
+			}
+			if spans && rem >= 2 && g.u("osp", 10) < 3 {
+				c.Span = 2 + g.u("ospn", min(rem, 3)-1)
+			} else if g.u("onp", 10) < 3 {
+				c.NoPr = true
+			}
+			rem -= c.span()
+			row = append(row, c)
+		}
+		o.Rows = append(o.Rows, row)
+	}
+	if g.u("ovm", 4) == 0 && R >= 2 { // one vertical merge, valid in grid terms
+		a := g.u("ova", R-1)
+		j := g.u("ovj", len(o.Rows[a]))
+		start := func(row []OpenCell, j int) int {
+			s := 0
+			for k := 0; k < j; k++ {
+				s += row[k].span()
+			}
+			return s
+		}
+		s0, sp0 := start(o.Rows[a], j), o.Rows[a][j].span()
+		want := 1 + g.u("ovl", R-1-a)
+		for i := a + 1; i <= a+want; i++ {
+			hit := -1
+			for k := range o.Rows[i] {
+				if start(o.Rows[i], k) == s0 && o.Rows[i][k].span() == sp0 {
+					hit = k
+				}
+			}
+			if hit < 0 {
+				break
+			}
+			o.Rows[i][hit].VM = pickOf(g, "ovf", []string{"continue", "empty"})
+			o.Rows[i][hit].NoPr = false
+			o.Rows[a][j].VM, o.Rows[a][j].NoPr = "restart", false
+		}
+	}
+	if g.u("onest", 6) == 0 {
+		i := g.u("oni", R)
+		o.Rows[i][g.u("onj", len(o.Rows[i]))].Nested = 1 + g.u("onc", 2)
+	}
+	return o
+}
+
 func genCase(t *rapid.T) Case {
 	g := &caseGen{t: t}
 	c := Case{
@@ -179,25 +305,37 @@ func genCase(t *rapid.T) Case {
 		Cols:  (1 + g.u("cols", 6-1+1)),
 		Width: pickOf(g, "width", []int{9000, 6000, 100, 0, 8640}),
 	}
-	switch g.u("wm", 19+1) {
-	case 0: // wrong number of widths: CreateTable must refuse
-		c.ColWidths = make([]int, c.Cols+pickOf(g, "wd", []int{-1, 1, 2}))
-		for i := range c.ColWidths {
-			c.ColWidths[i] = g.width()
-		}
-		if len(c.ColWidths) == 0 { // an empty list means "derive", not "wrong"
-			c.ColWidths = []int{1000, 1000}
-			if c.Cols == 2 {
-				c.ColWidths = []int{1000, 1000, 1000}
+	if g.u("src", 5) == 0 && os.Getenv("C09_NOOPEN") != "1" { // a fifth of the cases start from a table read from a file
+		o := g.openSpec()
+		c = Case{Via: "open", Rows: len(o.Rows), Cols: len(o.Grid), Open: o}
+	}
+	switch wm := g.u("wm", 19+1); {
+	case c.Open != nil:
+	default:
+		switch wm {
+		case 0: // wrong number of widths: CreateTable must refuse
+			c.ColWidths = make([]int, c.Cols+pickOf(g, "wd", []int{-1, 1, 2}))
+			for i := range c.ColWidths {
+				c.ColWidths[i] = g.width()
+			}
+			if len(c.ColWidths) == 0 { // an empty list means "derive", not "wrong"
+				c.ColWidths = []int{1000, 1000}
+				if c.Cols == 2 {
+					c.ColWidths = []int{1000, 1000, 1000}
+				}
+			}
+		case 1, 2, 3, 4, 5, 6, 7:
+			c.ColWidths = make([]int, c.Cols)
+			for i := range c.ColWidths {
+				c.ColWidths[i] = g.width()
 			}
 		}
-	case 1, 2, 3, 4, 5, 6, 7:
-		c.ColWidths = make([]int, c.Cols)
-		for i := range c.ColWidths {
-			c.ColWidths[i] = g.width()
-		}
 	}
-	switch g.u("dm", 9+1) {
+	dm := g.u("dm", 9+1)
+	if c.Open != nil {
+		dm = 0
+	}
+	switch dm {
 	case 0, 1: // none
 	case 2, 3, 4, 5: // full
 		for i := 0; i < c.Rows; i++ {
